@@ -44,6 +44,8 @@ var wants = []want{
 	{"leveldb/memdb", "mdb", []string{"tMaxHeight", "nKV", "nKey", "nVal", "nHeight", "nNext"}},
 	{"leveldb/opt", "opt", []string{"KiB", "MiB"}},
 	{"leveldb", "ldb", []string{"maxCachedNumber"}}, // C07: queue bound of session.refLoop
+	{"leveldb/cache", "cch", []string{"mInitialSize", "mOverflowThreshold", "mOverflowGrowThreshold",
+		"bucketUninitialized", "bucketInitialized", "bucketFrozen"}}, // C17: the node table of cache.go
 }
 
 // function-local or literal constants: (dir, file, func, description, extractor)
@@ -81,6 +83,16 @@ var lits = []lit{
 	{"leveldb/filter", "bloom.go", "Contains", "bloom_has_kmax", 0, 10},
 	{"leveldb/filter", "bloom.go", "Contains", "bloom_has_rotr", 1, 10},
 	{"leveldb/filter", "bloom.go", "Contains", "bloom_has_rotl", 2, 10},
+	// C17: murmur32 of cache.go (integer literals in source order: m, r, 32, 32, 13, 15) and its seed in Cache.Get
+	{"leveldb/cache", "cache.go", "murmur32", "cch_murmur_m", 0, 0},
+	{"leveldb/cache", "cache.go", "murmur32", "cch_murmur_r", 1, 0},
+	{"leveldb/cache", "cache.go", "murmur32", "cch_murmur_hi1", 2, 0},
+	{"leveldb/cache", "cache.go", "murmur32", "cch_murmur_hi2", 3, 0},
+	{"leveldb/cache", "cache.go", "murmur32", "cch_murmur_s1", 4, 0},
+	{"leveldb/cache", "cache.go", "murmur32", "cch_murmur_s2", 5, 0},
+	{"leveldb/cache", "cache.go", "Get", "cch_seed_get", 0, 2},
+	{"leveldb/cache", "cache.go", "Delete", "cch_seed_delete", 0, 2},
+	{"leveldb/cache", "cache.go", "Evict", "cch_seed_evict", 0, 2},
 }
 
 func coqName(prefix, n string) string { return prefix + "_" + n }
